@@ -138,6 +138,11 @@ pub fn elf_regions(path: &str, base: u64, img: &ElfImage, inode: u64, mem: &[u8]
             content: Content::Bytes(B(mem[off as usize..(off + len) as usize].to_vec())),
         });
     }
+    if let Some((mo, mv, ml)) = img.moved {
+        // segment appended by a post-link tool
+        let bytes: Vec<u8> = (0..ml as usize).map(|k| mem.get(mo as usize + k).copied().unwrap_or(0)).collect();
+        out.push(RegionSpec { start: base + mv, len: ml, perms: "r--p".into(), offset: mo, inode, name: B::s(path), deleted: false, content: Content::Bytes(B(bytes)) });
+    }
     if img.data_vaddr > img.data_off {
         // the loader's reserved, inaccessible gap between text and data
         out.push(RegionSpec {
@@ -181,6 +186,10 @@ pub fn lib_spec(r: &mut Rng, variety: bool, idx: usize) -> ElfSpec {
             4 => {
                 let n = r.pick_copy(&[8usize, 16, 20, 32]);
                 s.build_id = Some(r.bytes(n));
+            }
+            6 => {
+                // processed by a post-link tool: note and string table moved to an appended segment
+                s.moved_tables = true;
             }
             5 => {
                 // no note at all: the id is the fold of the first executable section, which is not
@@ -333,7 +342,7 @@ pub fn build_world(r: &mut Rng, cfg: &WorldCfg) -> Built {
             mem[o as usize..o as usize + 8].copy_from_slice(&v.to_le_bytes());
         }
         if let Some(o) = exe.dt_strtab_val_off {
-            let v = EXE_BASE + exe.dynstr_off;
+            let v = EXE_BASE + exe.dynstr_vaddr;
             mem[o as usize..o as usize + 8].copy_from_slice(&v.to_le_bytes());
         }
         elf_regions(cfg.exe_name, EXE_BASE, &exe, 1001, &mem, &mut regions);
@@ -363,7 +372,7 @@ pub fn build_world(r: &mut Rng, cfg: &WorldCfg) -> Built {
         let mut mem = img.file.clone();
         if let Some(o) = img.dt_strtab_val_off {
             // ld.so relocates d_ptr entries of loaded objects
-            let v = base + img.dynstr_off;
+            let v = base + img.dynstr_vaddr;
             mem[o as usize..o as usize + 8].copy_from_slice(&v.to_le_bytes());
         }
         if let Some(o) = img.dt_debug_val_off {
